@@ -106,6 +106,13 @@ CHECKS.update({
    note=NOTE_COMMON + "The continuation-duplicating fork model of DESIGN section 5/C15 was not built: K17 is recorded with its replay, not proved on a model.",
    technique="Coq proof of the store codec round trip + paired become/plain runs of the real binary", design="5/C15"),
 })
+CHECKS.update({
+ "C13": dict(
+   text="PARTIAL. A Gallina function is total by construction, so a theorem cannot show that Rust code never panics; proved are: the mirrors of the modelled panic sites return a value or an error for every input after the fixes (help check, parse_octal) with the pre-fix code refuted by witness (K14a, K1), and the growth law behind K15 (one store layer per loop item in the mirror, none with the property-text switches). "
+        "The rest is deadline-supervised exploration, labelled as such: mutated scripts, usage docs, argv, environments (incl. non-UTF-8), wrong-typed and boundary parameter values on the real binary and in-process docopt::parse; outcome enum {exit, panic, signal, timeout}; size ramps for loops, task counts and optional usage elements with measured times.",
+   note=NOTE_COMMON + "Fuzzing is not a proof: it supports the model and searches for failing inputs. Panics inside minijinja/serde_yaml/clap/regex, stack depth in bytes and wall-clock bounds cannot be expressed in the model. K15/K16 (and K17's hang) are recorded findings.",
+   technique="Coq proof for the modelled panic sites and the store-growth law + deadline-supervised mutation runs and size ramps", design="5/C13"),
+})
 REASONS = {p: "not yet built in this revision (see DESIGN.md section 9b build order)" for p in ALL}
 
 def main():
